@@ -26,6 +26,10 @@ func RawGet(t *Table, k Value) Value {
 
 const maxIndexChainLength = 100
 
+// maxCallChainLength bounds the chain of '__call' metamethods followed when
+// calling a value that is not itself callable.
+const maxCallChainLength = 100
+
 // Index returns the item in a collection for the given key k, using the
 // '__index' metamethod if appropriate.
 // Index always consumes CPU.
@@ -119,18 +123,27 @@ func Metacall(t *Thread, obj Value, method string, args []Value, next Cont) (err
 // metamethod and returns the continuations that needs to be run to get the
 // results.
 func Continue(t *Thread, f Value, next Cont) (Cont, error) {
-	callable, ok := f.TryCallable()
-	if ok {
-		return callable.Continuation(t, next), nil
+	// objs holds the non-callable values whose '__call' metamethod is being
+	// followed, outermost first.  Each becomes the first argument of the call to
+	// its metamethod.
+	var objs []Value
+	for i := 0; i < maxCallChainLength; i++ {
+		if callable, ok := f.TryCallable(); ok {
+			cont := callable.Continuation(t, next)
+			for j := len(objs) - 1; j >= 0; j-- {
+				t.Push1(cont, objs[j])
+			}
+			return cont, nil
+		}
+		t.RequireCPU(1)
+		m := t.metaGetS(f, "__call")
+		if m.IsNil() {
+			return nil, fmt.Errorf("attempt to call a %s value", f.CustomTypeName())
+		}
+		objs = append(objs, f)
+		f = m
 	}
-	cont, err, ok := metacont(t, f, "__call", next)
-	if !ok {
-		return nil, fmt.Errorf("attempt to call a %s value", f.CustomTypeName())
-	}
-	if cont != nil {
-		t.Push1(cont, f)
-	}
-	return cont, err
+	return nil, errors.New("'__call' chain too long; possible loop")
 }
 
 // Call calls f with arguments args, pushing the results on next.  It may use
@@ -139,15 +152,19 @@ func Call(t *Thread, f Value, args []Value, next Cont) error {
 	if f.IsNil() {
 		return errors.New("attempt to call a nil value")
 	}
-	callable, ok := f.TryCallable()
-	if ok {
-		return t.call(callable, args, next)
+	for i := 0; i < maxCallChainLength; i++ {
+		if callable, ok := f.TryCallable(); ok {
+			return t.call(callable, args, next)
+		}
+		t.RequireCPU(1)
+		m := t.metaGetS(f, "__call")
+		if m.IsNil() {
+			return fmt.Errorf("attempt to call a %s value", f.CustomTypeName())
+		}
+		args = append([]Value{f}, args...)
+		f = m
 	}
-	err, ok := Metacall(t, f, "__call", append([]Value{f}, args...), next)
-	if ok {
-		return err
-	}
-	return fmt.Errorf("attempt to call a %s value", f.CustomTypeName())
+	return errors.New("'__call' chain too long; possible loop")
 }
 
 // Call1 is a convenience method that calls f with arguments args and returns
@@ -465,18 +482,6 @@ func stripFirstLineComment(chunk []byte) ([]byte, bool) {
 		}
 	}
 	return nil, true
-}
-
-func metacont(t *Thread, obj Value, method string, next Cont) (Cont, error, bool) {
-	f := t.metaGetS(obj, method)
-	if f.IsNil() {
-		return nil, nil, false
-	}
-	cont, err := Continue(t, f, next)
-	if err != nil {
-		return nil, err, true
-	}
-	return cont, nil, true
 }
 
 func metabin(t *Thread, f string, x Value, y Value) (Value, error, bool) {
